@@ -25,8 +25,38 @@ def make_topo(rng, case):
     for _ in range(20):
         topo = gen.voronoi_topo(rng, case["sites"], t, min_ridge=case.get("min_ridge", 0.02))
         if topo is not None and topo.ncells() >= 3:
+            if case.get("short_ridge"):
+                topo = contract_ridge(topo, float(case["short_ridge"]))
             return topo
     return None
+
+
+def shortest_inner_ridge(topo):
+    """the shortest ridge shared by two cells whose two ends both lie on three cells"""
+    deg = {}
+    for c in topo.cells:
+        for j in c:
+            deg[j] = deg.get(j, 0) + 1
+    cand = [tuple(sorted(r)) for r, cs in topo.ridges.items() if len(cs) == 2 and all(deg.get(j, 0) >= 3 for j in r)]
+    if not cand:
+        return None
+    return min(cand, key=lambda r: (abs(topo.J[r[0]] - topo.J[r[1]]), r))
+
+
+def contract_ridge(topo, frac):
+    """the shortest inner ridge is contracted about its midpoint to the fraction `frac` of the tissue's extent: two junctions much
+    closer to each other than to anything else (a very short interface)"""
+    r = shortest_inner_ridge(topo)
+    if r is None:
+        return topo
+    a, b = r
+    J = np.array(topo.J, dtype=complex)
+    ext = max(np.ptp(J.real), np.ptp(J.imag))
+    m = 0.5 * (J[a] + J[b]); d = J[a] - J[b]
+    f = frac * ext / abs(d)
+    if f < 1.0:
+        J[a] = m + 0.5 * f * d; J[b] = m - 0.5 * f * d
+    return gen.Topo(J, topo.cells, topo.sites)
 
 
 def choose_subset(topo, rng, case):
@@ -316,6 +346,14 @@ def build_series(case, nframes=2, times=None, disp=None, renumber=False):
             m_ = 61
             perm = r2.permutation(m_)
             vmap = (lambda i, perm=perm, m_=m_: int(perm[i % m_]) + m_ * (i // m_))
+        elif renumber == "swap_short":
+            # every frame numbered alike, except that in odd frames the two ends of the shortest inner interface exchange their ids
+            # (creation order does not depend on the ids: the un-renumbered probe gives the two creation indices)
+            r_ = shortest_inner_ridge(base.topo)
+            if r_ is None or r_[0] not in base.bm.vid_of_junction or r_[1] not in base.bm.vid_of_junction:
+                return None
+            ca, cb = base.bm.vid_of_junction[r_[0]], base.bm.vid_of_junction[r_[1]]
+            vmap = (lambda i, ca=ca, cb=cb, odd=bool(t % 2): (cb if i == ca else ca if i == cb else i) if odd else i)
         elif renumber:
             r2 = np.random.default_rng(case["seed"] + 1000 + t)
             perm = r2.permutation(4000)
